@@ -520,9 +520,6 @@ theorem startTx_eq (s : State) (r : Req) (allowed : Nat) :
               ffHdr r.size ++ payload) := by
   rfl
 end State
-end Isotp
-namespace Isotp
-open State
 
 /-- `stopSending` re-establishes everything about the transmit side -/
 theorem Safe.stopSending_of {s : State} (hv : s.cfg.valid = true)
@@ -668,9 +665,6 @@ theorem transmitCf_eq (s : State) (allowed : Nat) :
         else (s, none, false) := by
   rfl
 end State
-end Isotp
-namespace Isotp
-open State
 
 theorem Safe.cfEmit {s : State} (h : Safe s) (p : Bytes) (hle : p.length + 1 + s.txPrefixLen ≤ s.cfg.txDl) :
     Safe (s.cfEmit p).1 ∧ (s.cfEmit p).1.exc = s.exc ∧ (s.cfEmit p).2.2 = false ∧
@@ -1491,9 +1485,6 @@ theorem pendStage_out (s : State) (msg : CanMsg) (h : s.pendStage.2 = some (some
       ∃ st, s.pendingFcStatus = some st ∧ makeFlowControl s.cfg s.addr st = some msg := by
   unfold State.pendStage at h
   grind [State.raise, startRxCfTimer]
-end Isotp
-namespace Isotp
-open State
 
 /-- **Quiet sender.** With nothing to send, `_process_tx` stays quiet and its only possible output is the
     Flow Control frame that the receive side requested. -/
@@ -2054,4 +2045,372 @@ theorem processRx_buf (s : State) (hw : s.rxState = .waitCf) (m : CanMsg) :
       · exact .inr (.inl h)
       · subst h1
         exact .inr (.inr (.inl ⟨d, data, hd, hp, h2, h3, h4, h5⟩))
+
+/-! ## The inner tx loop never runs out of fuel -/
+
+/-- fuel still owed to the request in transmission -/
+def actFuel (s : State) : Nat := match s.active with | some r => reqFuel r | none => 0
+
+/-- one unit for a frame parked by the rate limiter -/
+def sbFuel (s : State) : Nat := if s.standby.isSome then 1 else 0
+
+/-- termination measure of the inner tx loop: bytes still to send (plus 2 per request), plus one for a
+    frame parked by the rate limiter -/
+def txMeasure (s : State) : Nat := (s.txQueue.map reqFuel).sum + actFuel s + sbFuel s
+
+theorem txMeasure_lt_txFuel (s : State) : txMeasure s < s.txFuel := by
+  unfold txMeasure State.txFuel actFuel sbFuel
+  cases s.active <;> dsimp only <;> split <;> omega
+
+theorem txMeasure_congr {s s' : State} (h1 : s'.txQueue = s.txQueue) (h2 : s'.active = s.active)
+    (h3 : s'.standby = s.standby) : txMeasure s' = txMeasure s := by
+  simp [txMeasure, actFuel, sbFuel, h1, h2, h3]
+
+theorem txMeasure_stopSending (s : State) (b : Bool) :
+    txMeasure (s.stopSending b) = (s.txQueue.map reqFuel).sum := by
+  simp [txMeasure, actFuel, sbFuel]
+
+theorem txMeasure_stopSending_le (s : State) (b : Bool) : txMeasure (s.stopSending b) ≤ txMeasure s := by
+  rw [txMeasure_stopSending]; unfold txMeasure; omega
+
+theorem txMeasure_handleFc_le (s : State) (fc : FcFrame) : txMeasure (s.handleFc fc) ≤ txMeasure s := by
+  unfold State.handleFc
+  split
+  · exact Nat.le_of_eq (txMeasure_congr rfl rfl rfl)
+  · split
+    · split
+      · exact Nat.le_of_eq (txMeasure_congr rfl rfl rfl)
+      · split
+        · exact Nat.le_trans (txMeasure_stopSending_le _ _) (Nat.le_of_eq (txMeasure_congr rfl rfl rfl))
+        · dsimp only; split <;> exact Nat.le_of_eq (txMeasure_congr rfl rfl rfl)
+    · split
+      · dsimp only; split <;> exact Nat.le_of_eq (txMeasure_congr rfl rfl rfl)
+      · exact Nat.le_refl _
+
+theorem txMeasure_pendStage (s : State) : txMeasure s.pendStage.1 = txMeasure s := by
+  apply txMeasure_congr <;> (unfold State.pendStage; grind [State.raise, startRxCfTimer])
+
+theorem txMeasure_fcStage_le (s : State) : txMeasure s.fcStage.1 ≤ txMeasure s := by
+  unfold State.fcStage
+  dsimp only
+  split
+  · split
+    · refine Nat.le_trans (Nat.le_of_eq (txMeasure_congr rfl rfl rfl)) (Nat.le_trans (txMeasure_stopSending_le _ _) ?_)
+      exact Nat.le_of_eq (txMeasure_congr rfl rfl rfl)
+    · exact Nat.le_trans (txMeasure_handleFc_le _ _) (Nat.le_of_eq (txMeasure_congr rfl rfl rfl))
+  · exact Nat.le_of_eq (txMeasure_congr rfl rfl rfl)
+
+/-- a successful `consume` of at least one byte brings the request closer to its end -/
+theorem Safe.consume_remaining_lt (r : Req) (n : Nat) (e : Bool) (p : Bytes)
+    (h : (r.consume n e).2 = some p) (hp : 0 < p.length) :
+    (r.consume n e).1.remaining < r.remaining := by
+  obtain ⟨h1, h2, -, -⟩ := Safe.consume_some r n e p h
+  have h3 := Safe.consume_size r n e
+  unfold Req.remaining
+  omega
+
+theorem sfFinish_measure (s : State) (tat : Tat) (allowed : Nat) (d : Bytes) (m : CanMsg)
+    (h : (s.sfFinish tat allowed d).2 = some m) :
+    txMeasure (s.sfFinish tat allowed d).1 = (s.txQueue.map reqFuel).sum := by
+  unfold State.sfFinish at h ⊢
+  split at h
+  · simp at h
+  · next heq =>
+    try rw [heq]
+    try dsimp only at h ⊢
+    split at h
+    · simp at h
+    · next hle => rw [if_neg hle]; exact txMeasure_stopSending _ _
+
+theorem ffFinish_measure (s : State) (allowed : Nat) (d : Bytes) (m : CanMsg)
+    (h : (s.ffFinish allowed d).2 = some m) :
+    txMeasure (s.ffFinish allowed d).1 = txMeasure s := by
+  unfold State.ffFinish at h ⊢
+  split at h
+  · simp at h
+  · next heq =>
+    try rw [heq]
+    try dsimp only at h ⊢
+    split at h
+    · next hle => rw [if_pos hle]; exact txMeasure_congr rfl rfl rfl
+    · simp at h
+
+theorem startTx_measure (s : State) (r : Req) (allowed : Nat) (hv : s.cfg.valid = true)
+    (ha : s.active = some r) (m : CanMsg) (h : (s.startTx r allowed).2 = some m) :
+    txMeasure (s.startTx r allowed).1 < txMeasure s := by
+  have hp := Safe.txPrefix_le s.addr.tx
+  have hdl := Safe.txDl_ge hv
+  have hs : txMeasure s = (s.txQueue.map reqFuel).sum + (r.remaining + 2) + sbFuel s := by
+    simp [txMeasure, actFuel, ha, reqFuel]
+  rw [startTx_eq] at h ⊢
+  by_cases hcond : r.size + (if s.sizeOnFirst r then 1 else 2) + s.txPrefixLen ≤ s.cfg.txDl
+  · rw [if_pos hcond] at h ⊢
+    cases hres : (r.consume r.size true).2 with
+    | none => rw [hres] at h; simp at h
+    | some p =>
+      rw [hres] at h
+      dsimp only at h ⊢
+      rw [sfFinish_measure _ _ _ _ m h, hs]
+      simp only [consumeActive_txQueue]
+      omega
+  · rw [if_neg hcond] at h ⊢
+    cases hres : (r.consume (s.ffDataLen r) true).2 with
+    | none => rw [hres] at h; simp at h
+    | some p =>
+      rw [hres] at h
+      dsimp only at h ⊢
+      rw [ffFinish_measure _ _ _ m h, hs]
+      have hlen : p.length = s.ffDataLen r := (Safe.consume_some r _ _ p hres).2.2.2 rfl
+      have hpos : 0 < p.length := by
+        rw [hlen]; unfold State.ffDataLen State.txPrefixLen; split <;> omega
+      have hlt := Safe.consume_remaining_lt r _ _ p hres hpos
+      simp [txMeasure, actFuel, reqFuel, sbFuel]
+      omega
+
+theorem readTxQueue_measure (q : List Req) : ∀ (s : State) (allowed : Nat) (m : CanMsg),
+    s.cfg.valid = true → (s.readTxQueue allowed q).2 = some m →
+    txMeasure (s.readTxQueue allowed q).1 < (q.map reqFuel).sum + sbFuel s := by
+  induction q with
+  | nil => intro s allowed m hv h; simp [State.readTxQueue] at h
+  | cons r rest ih =>
+    intro s allowed m hv h
+    unfold State.readTxQueue at h ⊢
+    dsimp only at h ⊢
+    split at h
+    · next hd =>
+      rw [if_pos hd]
+      have := ih _ allowed m (by exact hv) h
+      simp only [List.map_cons, List.sum_cons]
+      have e : sbFuel ({ ({ s with txQueue := rest, active := some r } : State).emit (.done r.id true) with
+          active := none } : State) = sbFuel s := rfl
+      rw [e] at this
+      omega
+    · next hd =>
+      rw [if_neg hd]
+      have := startTx_measure ({ s with txQueue := rest, active := some r } : State) r allowed hv rfl m h
+      simp only [List.map_cons, List.sum_cons]
+      have e : txMeasure ({ s with txQueue := rest, active := some r } : State) =
+          (rest.map reqFuel).sum + reqFuel r + sbFuel s := rfl
+      rw [e] at this
+      omega
+
+theorem cfEmit_spec (s : State) (p : Bytes) :
+    (s.cfEmit p).1.txQueue = s.txQueue ∧ (s.cfEmit p).1.active = s.active ∧
+      (s.cfEmit p).1.standby = s.standby ∧ ((s.cfEmit p).2.1.isSome = true → 0 < p.length) := by
+  unfold State.cfEmit
+  split
+  · split
+    · exact ⟨rfl, rfl, rfl, by simp⟩
+    · next hpos _ _ _ => exact ⟨rfl, rfl, rfl, fun _ => by simpa using hpos⟩
+  · exact ⟨rfl, rfl, rfl, by simp⟩
+
+theorem cfAfter_measure_le (s : State) (r' : Req) (rbs : Nat) (out : Option CanMsg) :
+    txMeasure (s.cfAfter r' rbs out).1 ≤ txMeasure s ∧ (s.cfAfter r' rbs out).2.1 = out := by
+  unfold State.cfAfter
+  split
+  · split
+    · exact ⟨Nat.le_trans (txMeasure_stopSending_le _ _) (Nat.le_of_eq (txMeasure_congr rfl rfl rfl)), rfl⟩
+    · exact ⟨txMeasure_stopSending_le _ _, rfl⟩
+  · split
+    · exact ⟨Nat.le_of_eq (txMeasure_congr rfl rfl rfl), rfl⟩
+    · exact ⟨Nat.le_refl _, rfl⟩
+
+theorem transmitCf_measure (s : State) (allowed : Nat) (m : CanMsg)
+    (h : (s.transmitCf allowed).2.1 = some m) : txMeasure (s.transmitCf allowed).1 < txMeasure s := by
+  rw [transmitCf_eq] at h ⊢
+  split at h
+  · simp at h
+  · simp at h
+  · next rbs r hb ha =>
+    try simp only [hb, ha]
+    split at h
+    · next hto =>
+      rw [if_pos hto]
+      split at h
+      · next hal =>
+        rw [if_pos hal]
+        cases hres : (r.consume (s.cfPayloadLen r) false).2 with
+        | none => rw [hres] at h; simp at h
+        | some p =>
+          rw [hres] at h
+          dsimp only at h ⊢
+          obtain ⟨e1, e2, e3, e4⟩ := cfEmit_spec (s.consumeActive r (s.cfPayloadLen r) false).1 p
+          split at h
+          · simp at h
+          · next hbad =>
+            rw [if_neg hbad]
+            obtain ⟨c1, c2⟩ := cfAfter_measure_le ((s.consumeActive r (s.cfPayloadLen r) false).1.cfEmit p).1
+              (r.consume (s.cfPayloadLen r) false).1 rbs
+              ((s.consumeActive r (s.cfPayloadLen r) false).1.cfEmit p).2.1
+            rw [c2] at h
+            have hpos := e4 (by rw [h]; rfl)
+            have hlt := Safe.consume_remaining_lt r _ _ p hres hpos
+            refine Nat.lt_of_le_of_lt c1 ?_
+            simp only [txMeasure, actFuel, sbFuel, e1, e2, e3, consumeActive_txQueue, consumeActive_active,
+              consumeActive_standby, ha, reqFuel]
+            omega
+      · simp at h
+    · simp at h
+
+theorem fsmDispatch_measure (s : State) (allowed : Nat) (hv : s.cfg.valid = true) (m : CanMsg)
+    (h : (s.fsmDispatch allowed).2.1 = some m) : txMeasure (s.fsmDispatch allowed).1 < txMeasure s := by
+  unfold State.fsmDispatch at h ⊢
+  cases hst : s.txState <;> simp only [hst] at h ⊢
+  · have := readTxQueue_measure s.txQueue s allowed m hv h
+    unfold txMeasure at this ⊢
+    omega
+  · simp at h
+  · exact transmitCf_measure s allowed m h
+  · cases hsb : s.standby with
+    | none => rw [hsb] at h; simp at h
+    | some msg =>
+      rw [hsb] at h
+      dsimp only at h ⊢
+      split at h
+      · next hle =>
+        rw [if_pos hle]
+        simp only [reduceCtorEq, if_false]
+        rw [txMeasure_stopSending]
+        simp [txMeasure, sbFuel, hsb]
+        omega
+      · simp at h
+  · cases hsb : s.standby with
+    | none => rw [hsb] at h; simp at h
+    | some msg =>
+      rw [hsb] at h
+      dsimp only at h ⊢
+      split at h
+      · next hle =>
+        rw [if_pos hle]
+        simp [txMeasure, actFuel, sbFuel, hsb, startRxFcTimer]
+      · simp at h
+
+theorem fsmStage_measure (s : State) (allowed : Nat) (hv : s.cfg.valid = true) (m : CanMsg)
+    (h : (s.fsmStage allowed).2.1 = some m) : txMeasure (s.fsmStage allowed).1 < txMeasure s := by
+  unfold State.fsmStage at h ⊢
+  have h1 : txMeasure (if s.timerFc.timedOut s.now then (s.error .FlowControlTimeout).stopSending false else s)
+      ≤ txMeasure s ∧
+      (if s.timerFc.timedOut s.now then (s.error .FlowControlTimeout).stopSending false else s).cfg = s.cfg := by
+    split
+    · exact ⟨Nat.le_trans (txMeasure_stopSending_le _ _) (Nat.le_of_eq (txMeasure_congr rfl rfl rfl)), by simp [State.error, State.emit]⟩
+    · exact ⟨Nat.le_refl _, rfl⟩
+  generalize (if s.timerFc.timedOut s.now then (s.error .FlowControlTimeout).stopSending false else s) = s1
+    at h h1 ⊢
+  obtain ⟨h1, c1⟩ := h1
+  dsimp only at h ⊢
+  split at h
+  · simp at h
+  · next hna =>
+    rw [if_neg hna]
+    have h2 : ∀ b : Bool, txMeasure (if b = true then s1.stopSending true else s1) ≤ txMeasure s1 ∧
+        (if b = true then s1.stopSending true else s1).cfg = s1.cfg := by
+      intro b; cases b
+      · exact ⟨Nat.le_refl _, rfl⟩
+      · exact ⟨txMeasure_stopSending_le _ _, by simp⟩
+    generalize (decide (s1.txState ≠ .idle) && (match s1.active with | some r => r.depleted | none => false)
+          && s1.standby.isNone) = cnd at h ⊢
+    have h2 := h2 cnd
+    generalize (if cnd = true then s1.stopSending true else s1) = s2 at h h2 ⊢
+    obtain ⟨h2, c2⟩ := h2
+    have hv2 : s2.cfg.valid = true := by rw [c2, c1]; exact hv
+    split at h
+    · simp at h
+    · next hexc =>
+      rw [if_neg hexc]
+      cases hout : (s2.fsmDispatch allowed).2.1 with
+      | none => rw [hout] at h; simp at h
+      | some msg =>
+        have h3 := fsmDispatch_measure s2 allowed hv2 msg hout
+        dsimp only
+        have e : txMeasure ({ (s2.fsmDispatch allowed).1 with
+            rl := (s2.fsmDispatch allowed).1.rl.inform (s2.fsmDispatch allowed).1.now msg.data.length } : State)
+              = txMeasure (s2.fsmDispatch allowed).1 := txMeasure_congr rfl rfl rfl
+        rw [e]
+        omega
+
+/-- a frame output that lets the inner tx loop continue strictly decreases the measure -/
+theorem processTx_measure (s : State) (hv : s.cfg.valid = true) (m : CanMsg)
+    (ho : s.processTx.2.1 = some m) (hi : s.processTx.2.2 = false) :
+    txMeasure s.processTx.1 < txMeasure s := by
+  rw [processTx_eq] at ho hi ⊢
+  have h1 := txMeasure_pendStage s
+  have c1 := (TxFrame.pendStage s).cfg
+  split at ho
+  · simp at ho
+  · next heq => rw [heq] at hi; simp at hi
+  · next s1 heq =>
+    rw [heq] at h1 c1
+    try rw [heq] at hi
+    try rw [heq]
+    dsimp only at h1 c1 hi ⊢
+    have h2 := txMeasure_fcStage_le s1
+    have c2 := (TxFrame.fcStage s1).cfg
+    split at ho
+    · simp at ho
+    · next s2 heq2 =>
+      rw [heq2] at h2 c2
+      try rw [heq2]
+      dsimp only at h2 c2 ⊢
+      have := fsmStage_measure s2 (s.rl.allowedBytes s.cfg.rlBitMax) (by rw [c2, c1]; exact hv) m ho
+      omega
+
+/-- **The inner tx loop never runs out of fuel**: with more fuel than the measure (in particular with
+    `txFuel s`, as `process` calls it) it stops by itself. -/
+theorem txLoop_fuel (f : Nat) : ∀ (s : State) (n : Nat), s.cfg.valid = true → txMeasure s < f →
+    (txLoop f s n).2.2.2 = false := by
+  induction f with
+  | zero => intro s n _ h; omega
+  | succ f ih =>
+    intro s n hv h
+    unfold State.txLoop
+    dsimp only
+    split
+    · rfl
+    · cases ho : s.processTx.2.1 with
+      | none => simp only; split <;> simp
+      | some m =>
+        simp only
+        split
+        · rfl
+        · next himm =>
+          simp only [Option.isSome_some, if_true]
+          have hlt := processTx_measure s hv m ho (by simpa using himm)
+          apply ih
+          · rw [show (s.processTx.1.emit (.tx s.processTx.1.now m)).cfg = s.cfg from (TxFrame.processTx s).cfg]
+            exact hv
+          · have : txMeasure (s.processTx.1.emit (.tx s.processTx.1.now m)) = txMeasure s.processTx.1 :=
+              txMeasure_congr rfl rfl rfl
+            omega
+
+theorem txLoop_txFuel (s : State) (n : Nat) (hv : s.cfg.valid = true) :
+    (txLoop s.txFuel s n).2.2.2 = false :=
+  txLoop_fuel _ s n hv (txMeasure_lt_txFuel s)
+
+/-! ## `RxJust` under arbitrary use of the public interface -/
+
+theorem RxJust.step {s : State} (h : RxJust s) (op : Op) : RxJust (op.step s) := by
+  cases op with
+  | send a =>
+    simp only [Op.step]
+    unfold State.send
+    dsimp only
+    repeat' split
+    all_goals first | exact h | exact h.of_eq rfl rfl rfl rfl
+  | frame dt m => exact h.of_eq rfl rfl rfl rfl
+  | process doRx doTx => exact RxJust.stepInv.process s doRx doTx h
+  | advance dt => exact h.of_eq rfl rfl rfl rfl
+  | recv =>
+    simp only [Op.step]
+    unfold State.recv
+    split
+    · exact h
+    · exact h.of_eq rfl rfl rfl rfl
+  | stopSending => exact h.of_txFrame (TxFrame.stopSending s false)
+  | stopReceiving => exact RxJust.stopReceiving s
+  | reset => exact (RxJust.stopReceiving _).of_eq rfl rfl rfl rfl
+
+theorem RxJust.runOps (ops : List Op) : ∀ {s : State}, RxJust s → RxJust (runOps s ops) := by
+  induction ops with
+  | nil => intro s h; exact h
+  | cons op rest ih => intro s h; exact ih (h.step op)
 end Isotp
